@@ -364,7 +364,7 @@ def descriptors_check(kind, dtB, wB, cast, castdt, dim_given, dim, lim_given, li
     shape = wB if wB > 0 else 1
     consistent = (not dim_given or dim == shape) and (not lim_given or lim >= shape)
     try:
-        cb.set_dimension_and_repr_code_from_data(w)
+        fr.setup_from_data(w)              # the route a write takes: every channel of the frame, then the frame itself
         cb._run_checks_and_set_defaults()
     except RuntimeError:
         return 0 if not consistent else 1
@@ -375,6 +375,8 @@ def descriptors_check(kind, dtB, wB, cast, castdt, dim_given, dim, lim_given, li
     el = cb.element_limit.value
     if el is None or len(el) != 1 or el[0] < shape:
         return 4
+    if lim_given and el != [lim]:
+        return 8                           # a consistent element limit supplied by the user is written unchanged
     want_code = DT_CODE[castdt] if cast else DT_CODE[dtB]
     if cb.representation_code.value is None or cb.representation_code.value.value != want_code:
         return 5
@@ -581,7 +583,8 @@ def taint_check(kind, n, chunk, cast, big):
     nps.reset()
     (src, mapping, W) = make_source(kind, n + 2, 2, 7, '>' if big else '<', '>' if big else '<', 3)
     (fr, ca, cb) = _frame()
-    known = {'B': nps.float32} if cast else {}
+    # cast: 0 none, 1 float64 -> float32, 2 float64 -> int32, 3 float64 -> uint8
+    known = {} if not cast else {'B': [None, nps.float32, nps.int32, nps.uint8][cast]}
     w = W(src, mapping, known_dtypes=known, from_idx=1, to_idx=n + 1)
     for fd in MultiFrameData(fr, w, chunk_size=chunk):
         fd._make_body_bytes()
@@ -591,19 +594,19 @@ def taint_check(kind, n, chunk, cast, big):
     return 0
 
 
-def ob_taint(kind: int, n: int, chunk: int, cast: bool, big: bool) -> int:
+def ob_taint(kind: int, n: int, chunk: int, cast: int, big: bool) -> int:
     """
     pre: 0 <= kind < KINDS
-    pre: 1 <= n <= 3 and 1 <= chunk <= 4
+    pre: 1 <= n <= 3 and 1 <= chunk <= 4 and 0 <= cast <= 3
     post: _ == 0
     """
     return taint_check(kind, n, chunk, cast, big)
 
 
-def reach_taint(kind: int, n: int, chunk: int, cast: bool, big: bool) -> int:
+def reach_taint(kind: int, n: int, chunk: int, cast: int, big: bool) -> int:
     """
     pre: 0 <= kind < KINDS
-    pre: 1 <= n <= 3 and 1 <= chunk <= 4
+    pre: 1 <= n <= 3 and 1 <= chunk <= 4 and 0 <= cast <= 3
     post: _ != 0
     """
     return taint_check(kind, n, chunk, cast, big)
@@ -705,3 +708,133 @@ def reach_two_files_data(n1: int, n2: int, pass_dict: bool, same_names: bool) ->
     post: _ != 0
     """
     return two_files_data_check(n1, n2, pass_dict, same_names)
+
+
+# boundary windows of the frame number (decided by enumeration: an inlined encoder with bit operators or bytes() makes
+# the symbolic obligation above inconclusive rather than violated)
+try:
+    from crosshair import realize
+except ImportError:
+    def realize(x):
+        return x
+
+FN_EDGES = [1, 127, 128, 255, 256, 16383, 16384, 65535, 65536, 1073741823]
+N_FN_EDGES = len(FN_EDGES)
+
+
+def ob_fdata_number_edges(k: int, d: int, kind: int) -> int:
+    """
+    pre: 0 <= k < N_FN_EDGES and -1 <= d <= 1 and 0 <= kind < KINDS
+    pre: FN_EDGES[k] + d >= 1 and FN_EDGES[k] + d < 1073741824
+    post: _ == 0
+    """
+    return fdata_body_check(realize(kind), realize(FN_EDGES[k] + d), 4, 7, False, False, 3, 5)
+
+
+
+def generate_two_files_check(n1, n2, chunk, same_names):
+    """DLISFile.generate_logical_records over two logical files (own set names, inline data): the records yielded for
+    each logical file (from its header to the next header) contain exactly its own frame's FrameData, n_i of them,
+    numbered from 1, and no set of the other file."""
+    nps.reset()
+    df, (lf1, lf2) = new_file(2)
+    add_origin(lf1, 'O1', set_name='S1')
+    add_origin(lf2, 'O2', set_name='S2')
+    c1 = lf1.add_channel('A', data=col('colA1', n1, 2, '<', None), set_name='S1')
+    c2 = lf2.add_channel('A' if same_names else 'B', data=col('colA2', n2, 2, '<', None), set_name='S2')
+    f1 = lf1.add_frame('F1', channels=(c1,), set_name='S1')
+    f2 = lf2.add_frame('F2', channels=(c2,), set_name='S2')
+    recs = list(df.generate_logical_records(chunk_size=chunk))
+    per = []
+    for r in recs:
+        if getattr(r, 'set_type', None) == 'FILE-HEADER':
+            per.append([])
+        elif not per:
+            return 1
+        else:
+            per[-1].append(r)
+    if len(per) != 2:
+        return 2
+    frames = [f1, f2]
+    counts = [n1, n2]
+    own_sets = ['S1', 'S2']
+    for i in range(2):
+        k = 0
+        for r in per[i]:
+            if isinstance(r, FrameData):
+                k = k + 1
+                if r._frame is not frames[i] or r._frame_number != k:
+                    return 3
+            elif isinstance(getattr(r, 'set_type', None), str):
+                if r.set_name != own_sets[i]:
+                    return 4
+        if k != counts[i]:
+            return 5
+    return 0
+
+
+def ob_generate_two_files(n1: int, n2: int, chunk: int, same_names: bool) -> int:
+    """
+    pre: 1 <= n1 <= 3 and 1 <= n2 <= 3 and 1 <= chunk <= 4
+    post: _ == 0
+    """
+    return generate_two_files_check(n1, n2, chunk, same_names)
+
+
+def reach_generate_two_files(n1: int, n2: int, chunk: int, same_names: bool) -> int:
+    """
+    pre: 1 <= n1 <= 3 and 1 <= n2 <= 3 and 1 <= chunk <= 4
+    post: _ != 0
+    """
+    return generate_two_files_check(n1, n2, chunk, same_names)
+
+
+NAMES2 = ['A', 'B']
+DSN = [None, 'A', 'B', 'A__1']
+
+
+def dataset_names_check(a1, d1, a2, d2, a3, d3):
+    """Three channels added one after another with symbolic names (A/B) and explicit dataset names (none/A/B/A__1): an
+    explicit dataset name that is already taken is refused; otherwise all channels end up with distinct dataset names
+    (so no two channels ever read the same data by accident), explicit names kept."""
+    df, (lf,) = new_file(1)
+    add_origin(lf, 'O')
+    spec = [(NAMES2[a1], DSN[d1]), (NAMES2[a2], DSN[d2]), (NAMES2[a3], DSN[d3])]
+    chans = []
+    for (nm, ds) in spec:
+        taken = [c.dataset_name for c in chans]
+        try:
+            c = lf.add_channel(nm, dataset_name=ds)
+        except ValueError:
+            if ds is not None and ds in taken:
+                continue
+            return 1
+        if ds is not None:
+            if ds in taken:
+                return 2
+            if c.dataset_name != ds:
+                return 3
+        chans.append(c)
+    got = [c.dataset_name for c in chans]
+    for i in range(len(got)):
+        for j in range(i):
+            if got[i] == got[j]:
+                return 4
+    return 0
+
+
+def ob_dataset_names(a1: int, d1: int, a2: int, d2: int, a3: int, d3: int) -> int:
+    """
+    pre: 0 <= a1 <= 1 and 0 <= a2 <= 1 and 0 <= a3 <= 1 and 0 <= d1 <= 3 and 0 <= d2 <= 3 and 0 <= d3 <= 3
+    pre: (a1 * 4 + d1) % SHARD_N == SHARD_I % 8
+    post: _ == 0
+    """
+    return dataset_names_check(a1, d1, a2, d2, a3, d3)
+
+
+def reach_dataset_names(a1: int, d1: int, a2: int, d2: int, a3: int, d3: int) -> int:
+    """
+    pre: 0 <= a1 <= 1 and 0 <= a2 <= 1 and 0 <= a3 <= 1 and 0 <= d1 <= 3 and 0 <= d2 <= 3 and 0 <= d3 <= 3
+    post: _ != 0
+    """
+    return dataset_names_check(a1, d1, a2, d2, a3, d3)
